@@ -67,16 +67,25 @@ def run_check(ctx):
     ctx.extra['digests'] = digests
     # (b) an element allocated as public input contributes exactly one instance variable equal to its field encoding,
     #     which is also what to_field_elements reports
+    #     — through EVERY way of allocating a public input: from an Element, from an AffinePoint, from its field encoding
     l2 = []
     for c in [IDENT, T2REP] + pool.all[2:10]:
         l2 += ['r1.new input %s' % E(c), 'el.to_field_elements %s' % E(c), 'el.enc.to_field %s' % E(c)]
+        if c[2] % Q == 1 or True:
+            a = pyref.aff(c); l2 += ['r1.new_affine input %s' % Af(a), 'af.to_field_elements %s' % Af(a), 'el.enc.to_field %s' % E(c)]
     o2 = harness.run_script('ark', l2)
+    enc_of = {}
     for i in range(0, len(l2), 3):
         d = G.parse_r1(o2[i]); enc = o2[i + 2]
-        ok = d.get('ninst') == '2' and d.get('nwit') == '0' and d.get('ncons') == '0' and d.get('enc') == enc and o2[i + 1] == 'SOME ' + enc
+        ok = d.get('ninst') == '2' and d.get('nwit') == '0' and d.get('ncons') == '0' and d.get('enc') == enc and o2[i + 1] in ('SOME ' + enc, 'UNSUPPORTED')
         if not ok:
-            ctx.violation('public-input allocation of %s: %s; to_field_elements: %s; field encoding: %s' % (l2[i].split()[-1][:60], o2[i][:120], o2[i + 1], enc),
-                          {'stage': 'enumeration', 'script': l2[i:i + 3], 'output': o2[i:i + 3]}, {'class': 'public_input'}, found_input=True)
+            ctx.violation('public-input allocation %s: %s; to_field_elements: %s; field encoding: %s' % (' '.join(l2[i].split()[:2]) + ' ' + l2[i].split()[-1][:50], o2[i][:120], o2[i + 1], enc),
+                          {'stage': 'enumeration', 'script': l2[i:i + 3], 'output': o2[i:i + 3]}, {'class': 'public_input', 'op': l2[i].split()[0]}, found_input=True)
+    l3 = ['r1.new_fq input %x' % s_ for s_ in [0, 8] + pool.encodable[:3]]
+    for l, o in zip(l3, harness.run_script('ark', l3)):
+        d = G.parse_r1(o)
+        if not (d.get('ninst') == '2' and d.get('nwit') == '0' and d.get('ncons') == '0' and d.get('enc') == l.split()[-1]):
+            ctx.violation('public-input allocation %s: %s' % (l, o[:140]), {'stage': 'enumeration', 'script': [l], 'output': [o]}, {'class': 'public_input', 'op': 'r1.new_fq'}, found_input=True)
     # (c) the pinned Groth16 keys (tests/test_vectors): the seven circuits of tests/groth16_gadgets.rs (included verbatim by the
     #     harness) are proved with the pinned proving key; the proof must verify under the pinned verifying key with the honest
     #     public input and must be rejected for any other public input.  Witnesses: the structured values upstream never draws.
